@@ -32,7 +32,9 @@ var drvQueries = []drvQuery{
 	{text: `a = "x" ; b, a, b`, match: isA("x"), groupBy: []string{"b", "a", "b"}},
 	{text: `zq = "1"`, wantErr: true},
 	{text: `a = "x" ; zq`, wantErr: true},
-	{text: `a = `, wantErr: true},
+	{text: `a = `, wantErr: true, noParse: true},
+	{text: `a = "x" ;`, wantErr: true, noParse: true},
+	{text: `a = "x" ; b ;`, wantErr: true, noParse: true},
 }
 
 func HarnessC12Rows() {
